@@ -13,12 +13,12 @@ PID = 'C06'
 TOL = 1e-12
 RULE = ('for every single-input catalogue program (wrapped as R^n -> R^m) and random compositions: a random history of length '
         '3..10 over {forward(point, kind, D, P), pullback(seed) after the latest forward, gradient, jacobian, hessian, jac_vec, '
-        'vec_jac, hess_vec, vec_hess, vec_hess_vec, other-graph, repeat}; each call result compared (1e-12 x scale) with the same '
+        'vec_jac, hess_vec, vec_hess, vec_hess_vec, other-graph, repeat}; plus a finished graph evaluated while the program graph is being recorded; each call result compared (1e-12 x scale) with the same '
         'call as first call on a freshly recorded graph; the idiom "one forward, several pullbacks" is part of every history; '
         'class = (program, call kind, kind of the preceding call); non-trivial = the call is not the first of its history')
 ASSUMPTIONS = ['a freshly recorded graph answering the call first is the reference (its correctness is C03/C04/C05 matter)']
 DRIVERS = ['gradient', 'jacobian', 'hessian', 'jac_vec', 'vec_jac', 'hess_vec', 'vec_hess', 'vec_hess_vec']
-REQUIRED = ['forward', 'pullback', 'pullback:second', 'other-graph-between', 'returned-values-stable'] + DRIVERS
+REQUIRED = ['forward', 'pullback', 'pullback:second', 'other-graph-between', 'returned-values-stable', 'evaluated-while-recording-another'] + DRIVERS
 
 
 def vector_programs():
@@ -50,6 +50,9 @@ def cases(tier, seed):
     for (name, shape, dom, f) in vector_programs():
         for rep in range(reps):
             out.append({'kind': 'hist', 'seed': case_seed('C06', seed, name, rep), 'params': {'prog': name, 'len': 6 if tier == 'quick' else 10}})
+    for (name, shape, dom, f) in vector_programs()[:: (3 if tier == 'quick' else 1)]:
+        for rep in range(1 if tier == 'quick' else 4):
+            out.append({'kind': 'nested', 'seed': case_seed('C06', seed, 'nested', name, rep), 'params': {'prog': name}})
     for i in range(60 if tier == 'quick' else 8000):
         out.append({'kind': 'hist', 'seed': case_seed('C06', seed, 'comp', i), 'params': {'prog': 'comp', 'len': 6 if tier == 'quick' else 10}})
     return out
@@ -151,9 +154,84 @@ def _call_raw(cgv, cgs, call, state):
     raise KeyError(k)
 
 
+def _finished_graph(rng):
+    cg = CGraph()
+    z = Function(rng.normal(size=2))
+    w = algopy.sum(algopy.sin(0.3 * z) * algopy.exp(z)) + z[0] * z[1]
+    cg.trace_off()
+    cg.independentFunctionList = [z]; cg.dependentFunctionList = [w]
+    return cg
+
+
+def _use(H, how, rng):
+    """one use of a finished graph H"""
+    if how == 0:
+        return H.gradient(rng.normal(size=2))
+    if how == 1:
+        return H.function([rng.normal(size=2)])
+    if how == 2:
+        H.pushforward([UTPM(rng.normal(size=(3, 2, 2)))]); H.pullback([UTPM(rng.normal(size=(3, 2)))]); return None
+    if how == 3:
+        return H.jacobian(rng.normal(size=2))
+    return H.hess_vec(rng.normal(size=2), rng.normal(size=2))
+
+
+def _nested(ctx, p, rng):
+    """a finished graph H is evaluated while the graph G of the program is being recorded (its value used as a constant, a
+    logging call, ...): G must answer every call exactly like a G recorded without the interruption, and H must answer like
+    an H used outside any recording"""
+    name, shape, dom, g, n = _build(p, rng)
+    bs = gen.base_sampler(dom)
+    xrec = bs(rng, tuple(shape)).reshape(n)
+    try:
+        ref_cg, _ = progs.record(lambda x: g(x * 1.0), [xrec.copy()])
+        xnew = bs(rng, tuple(shape)).reshape(n)
+        want_f = _val(ref_cg.function([xnew.copy()])[0])
+        xc = gen.series_data(rng, 2, 2, tuple(shape), dom, 'random', False, 0.3).reshape(2, 2, n)
+        want_u = _val(ref_cg.function([UTPM(xc.copy())])[0])
+        want_j = _val(ref_cg.jacobian(xnew.copy()))
+    except Exception:
+        ctx.skip('unsupported-call:nested:' + name); return
+    how = int(rng.integers(5)); where = int(rng.integers(3))
+    H = _finished_graph(rng)
+    st = rng.bit_generator.state
+    want_h = _use(H, how, rng)
+    rng.bit_generator.state = st
+    try:
+        cg = CGraph()
+        x = Function(xrec.copy())
+        if where == 0:
+            got_h = _use(H, how, rng)
+        x1 = x * 1.0
+        if where == 1:
+            got_h = _use(H, how, rng)
+        y = g(x1)
+        if where == 2:
+            got_h = _use(H, how, rng)
+            y = y * 1.0
+        cg.trace_off()
+        cg.independentFunctionList = [x]; cg.dependentFunctionList = [y]
+        got_f = _val(cg.function([xnew.copy()])[0])
+        got_u = _val(cg.function([UTPM(xc.copy())])[0])
+        got_j = _val(cg.jacobian(xnew.copy()))
+    except Exception as e:
+        ctx.violation('evaluated-while-recording-another:raises', {'program': name, 'use': how, 'where': where, 'error': repr(e)[:200]}); return
+    for tag, a, b in (('function', got_f, want_f), ('function-utpm', got_u, want_u), ('jacobian', got_j, want_j)):
+        ok, e = _close(a, b)
+        if not ok:
+            ctx.violation('evaluated-while-recording-another:recorded-graph:%s' % tag, {'program': name, 'use_of_other_graph': how, 'where': where, 'err': e}); return
+    if want_h is not None:
+        ok, e = _close(_val(got_h), _val(want_h))
+        if not ok:
+            ctx.violation('evaluated-while-recording-another:finished-graph', {'program': name, 'use_of_other_graph': how, 'where': where, 'err': e}); return
+    ctx.ok('evaluated-while-recording-another', ('nested', name, how, where))
+
+
 def run_case(ctx, case):
     rng = gen.rng_of(case)
     p = case['params']
+    if case['kind'] == 'nested':
+        return _nested(ctx, p, rng)
     name, shape, dom, g, n = _build(p, rng)
     bs = gen.base_sampler(dom)
 
